@@ -67,9 +67,9 @@ type Obligation struct {
 
 type ReplaySpec struct {
 	Contract *FuncContract
-	// model variables to extract: name -> term
-	Vars map[string]string
-	Info map[string]string
+	inputs   []rpInput
+	outputs  []rpOutput
+	final    *State
 }
 
 // VC is one verification script: the symbolic execution of one function (or
@@ -87,6 +87,7 @@ type VC struct {
 	Contract *FuncContract
 	replay   *ReplaySpec
 	entryH8  string
+	decisions map[string]bool // forced truth values of opaque predicates (VC-level case split)
 	entry    *State
 }
 
